@@ -127,13 +127,15 @@ impl Message {
         if let Some(r) = &self.jwt_raw {
             return no_tilde(r) && self.disclosures.iter().all(|d| no_tilde(d)) && self.kb.as_deref().map(no_tilde).unwrap_or(true);
         }
+        // header and payload must not contain '.', the signature part may (the library's JSON
+        // parser builds "protected.payload.signature" and the compact splitter below reads the
+        // third part up to the end of the JWT)
         let no_dot = |s: &str| !s.contains('.');
         no_tilde(&self.h)
             && no_tilde(&self.p)
             && no_tilde(&self.s)
             && no_dot(&self.h)
             && no_dot(&self.p)
-            && no_dot(&self.s)
             && self.disclosures.iter().all(|d| no_tilde(d))
             && self.kb.as_deref().map(|k| no_tilde(k) && !k.is_empty()).unwrap_or(true)
     }
@@ -157,7 +159,7 @@ impl Message {
                 let jwt = parts[0];
                 let kb = parts[parts.len() - 1];
                 let ds: Vec<String> = parts[1..parts.len() - 1].iter().map(|x| x.to_string()).collect();
-                let jp: Vec<&str> = jwt.split('.').collect();
+                let jp: Vec<&str> = jwt.splitn(3, '.').collect();
                 let (h, p, sg, raw) = if jp.len() == 3 {
                     (jp[0].to_string(), jp[1].to_string(), jp[2].to_string(), None)
                 } else {
@@ -169,7 +171,12 @@ impl Message {
                 let v: Value = serde_json::from_str(s).ok()?;
                 let o = v.as_object()?;
                 let g = |k: &str| o.get(k).and_then(Value::as_str).map(str::to_string);
-                let ds = o.get("disclosures")?.as_array()?.iter().map(|d| d.as_str().map(str::to_string)).collect::<Option<Vec<_>>>()?;
+                // tolerant: a missing `disclosures` member is the empty list (so that the gateway can
+                // still re-express such an envelope in the compact form)
+                let ds = match o.get("disclosures") {
+                    None => Vec::new(),
+                    Some(d) => d.as_array()?.iter().map(|d| d.as_str().map(str::to_string)).collect::<Option<Vec<_>>>()?,
+                };
                 let kb = match o.get("kb_jwt") {
                     None | Some(Value::Null) => None,
                     Some(Value::String(s)) => Some(s.clone()),
